@@ -286,6 +286,17 @@ class RefExchange:
             return [self._exec("fill-pending", E_TRADE, st, self.live_id, last=amount)]
         return [self._exec("fill", E_TRADE, self.status(), self.live_id, last=amount)]
 
+    def bust(self, exec_type, eighths):
+        """Trade cancel / correct / restatement (FIX 4.4 matrix D: fill followed by bust / correction): part of
+        the executed quantity is taken back, CumQty goes DOWN, LeavesQty up; the order keeps working."""
+        old = self.cum
+        step = 0.1 if self.grid == "dec" else 0.125
+        amt = quant(self.grid, old * max(1, min(8, int(eighths))) / 8.0) or step
+        amt = min(amt, old)
+        self.cum = quant(self.grid, old - amt)
+        self.notional = self.notional * (self.cum / old) if old else 0.0
+        return [self._exec("bust", exec_type, self.status(), self.live_id)]
+
     def expire(self):
         self.phase = S_EXPIRED
         return [self._exec("expire", E_EXPIRED, S_EXPIRED, self.live_id)]
@@ -402,6 +413,7 @@ def make_config(seed, tier="quick", half="c17"):
     rt = random.Random(seed ^ 0xC17E5)
     if rt.random() < 0.08:
         price = rt.choice([1.234e-05, 2.5e-07, 5e-05, 9.87654321e-06, 1e-10])  # (huge magnitudes would absorb the harness's own price + 1.0 replace step)
+    direct_requests = rt.random() < 0.3
     weights = {}
     for k in ACTION_KINDS:
         mult = r.choice([0.0, 0.3, 1.0, 1.0, 1.0, 3.0])
@@ -432,6 +444,7 @@ def make_config(seed, tier="quick", half="c17"):
         # the helper validates what it fabricates itself (it is given the schema); the
         # oracle validates again, independently of the helper's own call, in these runs
         revalidate=(tier == "thorough") or r.random() < 0.125,
+        direct_requests=direct_requests,
     )
     return cfg
 
@@ -1090,6 +1103,10 @@ class C20aMachine(_MachineBase):
         self.lenient_rej_oid = bool(cfg.get("lenient_reject_orderid"))
         self.revalidate = bool(cfg.get("revalidate", True))
         self.cur_req = None
+        # requests built by the order object itself (as an application sending through a connection does) instead
+        # of through the helper's fix_cxl_request / fix_rep_request wrappers: the helper's answers to them are
+        # "argument combinations the helper accepts" just the same
+        self.direct = bool(cfg.get("direct_requests"))
 
     def quiescent(self):
         return self.ex.held is None and self.ex.phase is not None
@@ -1286,7 +1303,8 @@ class C20aMachine(_MachineBase):
         pend = bool(act[1]) if len(act) > 1 else False
         dec = act[2] if len(act) > 2 else "accept"
         bits = int(act[3]) if len(act) > 3 else 0
-        m = self._request("cancel", lambda: self.ft.fix_cxl_request(self.order))
+        m = self._request("cancel", (lambda: self.order.cancel_req()) if self.direct else
+                          (lambda: self.ft.fix_cxl_request(self.order)))
         if m is not None:
             pend, dec = self._handle("cancel", m, pend, dec, bits)
         return ["cancel", int(pend), dec, bits]
@@ -1301,7 +1319,8 @@ class C20aMachine(_MachineBase):
         dec = act[4] if len(act) > 4 else "accept"
         bits = int(act[5]) if len(act) > 5 else 0
         price, qty = self.replace_values(pmode, qmode)
-        m = self._request("replace", lambda: self.ft.fix_rep_request(self.order, price, qty))
+        m = self._request("replace", (lambda: self.order.replace_req(price, qty)) if self.direct else
+                          (lambda: self.ft.fix_rep_request(self.order, price, qty)))
         if m is not None:
             was_filled = self.ex.phase == S_FILLED
             pend, dec = self._handle("replace", m, pend, dec, bits)
@@ -1364,6 +1383,17 @@ class C20aMachine(_MachineBase):
     def a_late_reject(self, act):
         return self._spont("late_reject", "reject_of_acknowledged_order", act)
 
+    def a_bust(self, act):
+        ex = self.ex
+        if ex.phase != "L" or ex.suspended or ex.held is not None or ex.cum <= 0 or not self.new_sent:
+            return None
+        et = act[1] if len(act) > 1 and act[1] in ("H", "G", "D") else "H"
+        k = int(act[2]) if len(act) > 2 else 8
+        bits = int(act[3]) if len(act) > 3 else 0
+        self.probes["trade_bust_or_correction_lowers_cumqty"] += 1
+        self.deliver_specs(ex.bust(et, k), bits)
+        return ["bust", et, k, bits]
+
     def a_status(self, act):
         if self.ex.phase is None or self.ex.held is not None or not self.new_sent:
             return None
@@ -1403,6 +1433,8 @@ class C20aMachine(_MachineBase):
                     ks.append(ev)
         if self.ex.phase is not None and self.ex.held is None:
             ks.append("status")
+        if self.ex.phase == "L" and not self.ex.suspended and self.ex.held is None and self.ex.cum > 0:
+            ks.append("bust")
         return ks
 
     def choose(self):
@@ -1434,6 +1466,8 @@ class C20aMachine(_MachineBase):
             return [k, "reject" if r.random() < c["p_reject"] else "accept", bits]
         if k == "fill":
             return [k, self.choose_fill(), bits]
+        if k == "bust":
+            return [k, r.choice(("H", "H", "G", "D")), r.randint(1, 8), bits]
         return [k, bits]
 
     def run(self, want_sample=False):
